@@ -48,6 +48,15 @@ META = {
     "trusted": ["float rounding of the conversions is measured against the exact model (16 eps), not proved",
                 "torch.det is a contract parameter of the model (checked against the cofactor formula in the `kernel` stream)",
                 "torch.pow(d, 1/3) uses the double nearest to 1/3; the model uses exp(log d / 3) (difference < 2 ulp for d in [1e-9,1e9])"],
+    "observations": ["RANK TEST IS BATCH-LEVEL (outside the property's quantifier: scales ≥ 1e-3 with the default atol 1e-5): a VALID Sim3 / RxSO3 "
+                     "element with 0 < s ≤ atol raises 'Rotation matrix not full rank' when converted alone but is accepted in a batch that also "
+                     "contains a scale above atol (allclose(s, 0) over the whole batch, convert.py mat2Sim3 / mat2RxSO3) — for such inputs neither "
+                     "'valid inputs never raise' nor 'batch = item-wise' holds; theorem rank_test_is_batch_level proves it of the model, the reject "
+                     "stream (kind tinyscale) confirms it on the code; the batch-vs-item oracle exempts exactly the items with cbrt(det) ≤ atol",
+                     "the round trip mat2SO3∘matrix multiplies a norm defect by up to 3 per application (theorem roundtrip_norm_amplification, Lemmas): "
+                     "iterated conversions drift geometrically (1.4e14 eps after 40 round trips on the clean tree); each single conversion of a "
+                     "1-ulp-valid element meets every bound",
+                     "the last-row warning exists only in mat2SE3 / mat2Sim3 (model lastRowWarnBatch; mat2SO3 / mat2RxSO3 never inspect the last row)"],
     "assumptions": ["inputs of the round-trip clause are valid elements (unit quaternion to 1 ulp, scale in [1e-3,1e3])",
                     "tolerances of check=True for the 'valid inputs never raise' clause are at least 1e-5/1e-5 (float32) — a user "
                     "tolerance below the dtype's rounding level would reject float-rounded valid matrices by design",
@@ -641,13 +650,22 @@ def prep_reject(ctx: Ctx, case):
     elif pv == "ok" and exc is not None:
         ctx.fail(case, f"rejects: a matrix within the tolerances raised {got} {desc}")
     # ---- a batch must raise iff one of its items raises when converted alone (check=True)
-    tiny_item = False
+    # OBSERVATION (theorem rank_test_is_batch_level): a VALID scaled rotation with 0 < s ≤ atol raises "not full rank" alone but is
+    # accepted in a batch that also holds a scale above atol. The exemption is exactly that predicate: an item is `tiny` when its
+    # scale cbrt(det) is ≤ atol (within the guard band); such an item's verdict ALONE says nothing about the batch. Everything
+    # else is still held to "the batch raises iff one of its items raises alone":
+    #   expected = (every item tiny)  or  (some non-tiny item raises alone)
+    # and the case is skipped only when a tiny item is itself one of the perturbed items (its own validity is then undecidable
+    # from the single call, which stops at the rank test).
+    tiny = [False] * n
     if name in ("Sim3", "RxSO3") and case["atol"] > 0:
-        for R in M64[:, :3, :3]:
+        for i, R in enumerate(M64[:, :3, :3]):
             d_ = float(torch.det(R))
-            if d_ >= 0 and d_ ** (1 / 3) <= case["atol"] * (1 + 2 * band_of(case) + 1e-9):
-                tiny_item = True      # alone it is "rank deficient" by the code's test, in a batch of larger scales it is not
-    if n > 1 and case["check"] and pv in ("ok", "raise") and not tiny_item:
+            tiny[i] = d_ >= 0 and d_ ** (1 / 3) <= case["atol"] * (1 + 2 * band_of(case) + 1e-9)
+    undecidable = any(tiny[i] for i in case.get("bad_items", [])) if case.get("kind") != "tinyscale" else False
+    if any(tiny):
+        ctx.count("reject.batch-oracle.tiny-items")
+    if n > 1 and case["check"] and pv in ("ok", "raise") and not undecidable:
         single_raises = []
         for i in range(n):
             try:
@@ -660,9 +678,11 @@ def prep_reject(ctx: Ctx, case):
             except Exception as e:
                 single_raises.append(True)
                 ctx.fail(case, f"exctype: item {i} alone raised {type(e).__name__} instead of ValueError {desc}")
-        if any(single_raises) != (exc is not None):
+        expected = all(tiny) or any(r_ for r_, t_ in zip(single_raises, tiny) if not t_)
+        if expected != (exc is not None):
             ctx.fail(case, f"batch: the batch {'raised' if exc is not None else 'returned'} but converting its items one by one "
-                           f"{'raises for items ' + str([i for i, r in enumerate(single_raises) if r]) if any(single_raises) else 'raises for none'} {desc}")
+                           f"{'raises for items ' + str([i for i, r in enumerate(single_raises) if r]) if any(single_raises) else 'raises for none'} "
+                           f"(items with scale ≤ atol: {[i for i, t_ in enumerate(tiny) if t_]}) {desc}")
     # ---- correspondence (verdict and message kind), model evaluated at tol·(1±band) too
     b = band_of(case)
     lines = []
@@ -993,42 +1013,67 @@ def run_kernel(ctx: Ctx, n):
 
 
 def run_warn(ctx: Ctx, n):
+    """the 4x4 last-row WARNING against the model's `lastRowWarnBatch`: only mat2SE3 / mat2Sim3 (and from_matrix for those
+    types) inspect the last row, with check=True, over the whole batch (one bad row anywhere warns); mat2SO3 / mat2RxSO3 and the
+    3x3 / 3x4 layouts never warn. A deterministic part (every type x layout x check x position of the bad row) runs first."""
     rng = ctx.rng
     lines, metas = [], []
-    for ci in range(n):
-        name = rng.choice(["SE3", "Sim3"])
-        dtype = rng.choice(["float64", "float32"])
-        eps = common.EPS[dtype]
-        rtol, atol = rng.choice(TOLS)
-        check = rng.random() < 0.8
-        t, q, s, tag = gen_elem(rng, eps, atol)
-        X = P().LieTensor(torch.tensor(rows_of(name, t, q, s), dtype=torch.float64), ltype=U.ltype(name))
-        M = X.matrix().clone()
-        j = rng.randrange(4)
-        tol = atol + (rtol if j == 3 else 0.0)
-        f = rng.choice([0.0, 0.0, 0.3, 0.7, 1.5, 3.0, 100.0])
-        M[3, j] += tol * f * rng.choice([-1, 1])
-        M = M.to(U.dt(dtype))
-        case = {"stream": "warn", "type": name, "dtype": dtype, "check": check, "rtol": rtol, "atol": atol, "M": M.double().tolist(), "ci": ci}
+    qs = corner_quats()
+
+    def one(ci, name, dtype, rtol, atol, check, lay, nb, bad, j, f, via_fm):
+        src = "Sim3" if name in ("Sim3", "RxSO3") else "SE3"
+        mats = []
+        for i in range(nb):
+            X = P().LieTensor(torch.tensor(rows_of(src, [0.5 * i, -1.0, 2.0], qs[(13 * i + ci) % len(qs)][0], [1.0, 0.5, 3.0][i % 3] if src == "Sim3" else 1.0),
+                                           dtype=torch.float64), ltype=U.ltype(src))
+            M = X.matrix().clone()
+            if i in bad:
+                tol = atol + (rtol if j == 3 else 0.0)
+                M[3, j] += tol * f * (1 if (ci + i) % 2 else -1)
+            mats.append(M)
+        M = slice_layout(torch.stack(mats), lay).to(U.dt(dtype))
+        case = {"stream": "warn", "type": name, "dtype": dtype, "check": check, "rtol": rtol, "atol": atol, "lay": lay, "bad": sorted(bad),
+                "col": j, "factor": f, "M": M.double().tolist(), "ci": ci, "via_from_matrix": via_fm}
         with warnings.catch_warnings(record=True) as wrn:
             warnings.simplefilter("always")
             try:
-                fn_of(name)(M, check=check, rtol=rtol, atol=atol)
+                if via_fm:
+                    P().from_matrix(M.clone(), U.ltype(name), check=check, rtol=rtol, atol=atol)
+                else:
+                    fn_of(name)(M.clone(), check=check, rtol=rtol, atol=atol)
             except Exception as e:
-                ctx.fail(case, f"raises: {name} conversion raised {type(e).__name__} because of the last row: {str(e)[:80]}")
-                continue
+                ctx.fail(case | {"M": None}, f"raises: {name} conversion (layout {lay}) raised {type(e).__name__} because of the last row: {str(e)[:80]}")
+                return
         got = any("last rows" in str(w.message) for w in wrn)
+        if got and (name in ("SO3", "RxSO3") or lay != "44" or not check or not bad or f == 0.0):
+            ctx.count("warn.unexpected")
         b = band_of(case)
         for ff in (1.0, 1 + b, 1 - b):
-            lines.append(f"c11.warn 44 {1 if check else 0} " + common.wire_list([rtol * ff, atol * ff] + M.double().reshape(-1).tolist()))
+            lines.append(f"c11.warn {name} {lay} {1 if check else 0} {nb} " + common.wire_list([rtol * ff, atol * ff] + M.double().reshape(-1).tolist()))
         metas.append((case, got, f))
+    ci = 0
+    for name in U.GROUPS:                              # deterministic part
+        for lay in LAYOUTS:
+            for check in (True, False):
+                for pos in (0, 1, 2):
+                    for (j, f) in ((0, 3.0), (3, 3.0), (2, 0.3), (3, 0.0)):
+                        one(ci, name, ["float64", "float32"][ci % 2], 1e-5, 1e-5, check, lay, 3, {pos} if f else set(), j, f, ci % 3 == 0)
+                        ci += 1
+    for k in range(n):                                 # generated part
+        name = rng.choice(U.GROUPS)
+        rtol, atol = rng.choice(TOLS)
+        nb = rng.choice([1, 1, 2, 3, 5])
+        bad = {rng.randrange(nb)} if rng.random() < 0.7 else set()
+        one(ci + k, name, rng.choice(["float64", "float32"]), rtol, atol, rng.random() < 0.8, rng.choice(["44", "44", "34", "33"]), nb, bad,
+            rng.randrange(4), rng.choice([0.0, 0.3, 0.7, 1.5, 3.0, 100.0]), rng.random() < 0.5)
     reps = ctx.driver.run(lines)
     for i, (case, got, f) in enumerate(metas):
         vs = [float(common.reply_nums(r)[0]) == 1.0 for r in reps[3 * i:3 * i + 3]]
         if got not in vs:
-            ctx.disagree("warn", case, f"last-row warning: code {got}, model {vs} (deviation/tol {f})")
-        ctx.note_case(("warn", case["type"], case["dtype"], case["check"], case["rtol"], f), True)
-        ctx.count(f"warn.{got}")
+            ctx.disagree("warn", case | {"M": None}, f"last-row warning of {case['type']} (layout {case['lay']}, check={case['check']}, bad rows {case['bad']}, "
+                                                     f"deviation/tol {f}, {case['dtype']}): code {got}, model {vs}")
+        ctx.note_case(("warn", case["type"], case["dtype"], case["check"], case["lay"], case["rtol"], f, len(case["bad"])), True)
+        ctx.count(f"warn.{case['type']}.{got}")
 
 
 def run_dispatch(ctx: Ctx):
